@@ -23,12 +23,17 @@ struct CapSink {
     got: Mutex<Vec<(String, Vec<u8>, u16)>>,
     /// the transport behind the sink has closed (the peer itself stays registered until it is removed)
     closed: std::sync::atomic::AtomicBool,
+    /// run once, from inside the next send (a sink may well call back into the registry: a transport that learns of a
+    /// dead connection while sending removes the peer)
+    on_send: Mutex<Option<Box<dyn FnOnce() + Send>>>,
 }
 impl PeerSink for CapSink {
     fn is_connected(&self) -> bool { !self.closed.load(Ordering::SeqCst) }
     fn send_notify(&self, method: &str, body: NotifyBody) -> Result<(), PeerSendError> {
         let fmt = u16::from(body.body_format());
         self.got.lock().unwrap().push((method.to_string(), body.into_bytes(), fmt));
+        let hook = self.on_send.lock().unwrap().take();
+        if let Some(h) = hook { h(); }
         Ok(())
     }
 }
@@ -67,16 +72,22 @@ impl World {
                 // a body unique to this call, so deliveries can be attributed to it
                 let path = format!("/bc/{serial}");
                 let body = format!("body-{serial}").into_bytes();
-                let (res, fmt): (HashMap<PeerId, Result<(), PeerSendError>>, u16) = match serial % 4 {
+                // raw broadcasts carry bytes that are not valid text / JSON / BEVE under every format tag: the body is the
+                // caller's, delivered verbatim whatever the tag says
+                let hostile: Vec<u8> = [&[0x61u8, 0x80, 0x62, 0xFF, 0xE2, 0x82][..], format!("-{serial}").as_bytes()].concat();
+                let raw_tags = [BodyFormat::Utf8, BodyFormat::Json, BodyFormat::Beve, BodyFormat::RawBinary];
+                let (res, fmt): (HashMap<PeerId, Result<(), PeerSendError>>, u16) = match serial % 8 {
                     0 => (self.reg.broadcast_notify_raw(&path, BodyFormat::RawBinary, &body), u16::from(BodyFormat::RawBinary)),
                     1 => (self.reg.broadcast_notify_utf8(&path, std::str::from_utf8(&body).unwrap()), u16::from(BodyFormat::Utf8)),
                     2 => (self.reg.broadcast_notify_json(&path, &serial).unwrap(), u16::from(BodyFormat::Json)),
-                    _ => (self.reg.broadcast_notify_beve(&path, &serial).unwrap(), u16::from(BodyFormat::Beve)),
+                    3 => (self.reg.broadcast_notify_beve(&path, &serial).unwrap(), u16::from(BodyFormat::Beve)),
+                    k => { let t = raw_tags[(k - 4) as usize]; (self.reg.broadcast_notify_raw(&path, t, &hostile), u16::from(t)) }
                 };
-                let want_body: Vec<u8> = match serial % 4 {
+                let want_body: Vec<u8> = match serial % 8 {
                     0 | 1 => body.clone(),
                     2 => serde_json::to_vec(&serial).unwrap(),
-                    _ => beve::to_vec(&serial).unwrap(),
+                    3 => beve::to_vec(&serial).unwrap(),
+                    _ => hostile.clone(),
                 };
                 let mut keys: Vec<u64> = res.keys().map(|p| p.0).collect();
                 keys.sort();
@@ -413,8 +424,51 @@ pub fn hist(a: &Args) -> i32 {
             out.push(e);
         }
     }
+    // scripted re-entrant histories: while a broadcast is delivering to its first peer, that peer's sink inserts a new peer
+    // and removes the other original ones (logged as thread 2's operations, nested inside thread 1's broadcast).  Whatever
+    // moment the broadcast is taken to have happened at, its result must be the membership of ONE moment.
+    let mut reentrant = 0u64;
+    if nthreads >= 2 && npeers >= 3 {
+        for variant in 0..a.usize("reentrant", 6) {
+            let w = Arc::new(World::new(&peers));
+            let clock = Arc::new(AtomicU64::new(1));
+            let log: Arc<Mutex<Vec<(u64, Value)>>> = Arc::new(Mutex::new(vec![(0, json!({"ev": "reset", "run": runs + variant}))]));
+            let logged = |w: &Arc<World>, log: &Arc<Mutex<Vec<(u64, Value)>>>, clock: &Arc<AtomicU64>, serial: &Arc<AtomicU64>, t: u64, name: &str, p: u64, k: &str| {
+                let s = serial.fetch_add(1, Ordering::Relaxed);
+                let t_inv = clock.fetch_add(1, Ordering::SeqCst);
+                log.lock().unwrap().push((t_inv, json!({"ev": "inv", "t": t, "op": {"name": name, "p": p, "k": k}})));
+                let (ret, deliv, bad) = w.exec(name, p, k, s);
+                let t_res = clock.fetch_add(1, Ordering::SeqCst);
+                let mut e = json!({"ev": "res", "t": t, "ret": ret});
+                if name == "broadcast" { e["deliv"] = deliv; e["bad"] = json!(bad); }
+                log.lock().unwrap().push((t_res, e));
+            };
+            // originals: two of the three peers, the third arrives from inside the broadcast
+            let orig: Vec<u64> = match variant % 3 { 0 => vec![1, 2], 1 => vec![2, 3], _ => vec![1, 3] };
+            let newcomer = (1..=3u64).find(|p| !orig.contains(p)).unwrap();
+            for p in &orig { logged(&w, &log, &clock, &serial, 1, "insert", *p, ""); }
+            if variant >= 3 { logged(&w, &log, &clock, &serial, 1, "alias", orig[0], "a"); }
+            let fired = Arc::new(std::sync::atomic::AtomicBool::new(false));
+            for p in &orig {
+                let (w2, log2, clock2, serial2, fired2, me, orig2) = (w.clone(), log.clone(), clock.clone(), serial.clone(), fired.clone(), *p, orig.clone());
+                *w.sinks[p].on_send.lock().unwrap() = Some(Box::new(move || {
+                    if fired2.swap(true, Ordering::SeqCst) { return; }
+                    logged(&w2, &log2, &clock2, &serial2, 2, "insert", newcomer, "");
+                    for q in orig2.iter().filter(|q| **q != me) { logged(&w2, &log2, &clock2, &serial2, 2, "remove", *q, ""); }
+                }));
+            }
+            logged(&w, &log, &clock, &serial, 1, "broadcast", 0, "");
+            for p in &orig { *w.sinks[p].on_send.lock().unwrap() = None; }
+            logged(&w, &log, &clock, &serial, 1, "len", 0, "");
+            logged(&w, &log, &clock, &serial, 1, "broadcast", 0, "");
+            let mut all = std::mem::take(&mut *log.lock().unwrap());
+            all.sort_by_key(|(s, _)| *s);
+            for (_, e) in all.iter() { out.push(e); }
+            reentrant += 1;
+        }
+    }
     let lines = out.lines;
     out.finish();
-    util::write_json(&a.str("summary", "/dev/null"), &json!({"runs": runs, "events": lines, "distinct_programmes": distinct.len()}));
+    util::write_json(&a.str("summary", "/dev/null"), &json!({"runs": runs, "events": lines, "distinct_programmes": distinct.len(), "reentrant_histories": reentrant}));
     0
 }
